@@ -380,6 +380,39 @@ def fresh_main():
     print(bytes(outs[0]).hex())
 
 
+async def equal_but_different_values(chk):
+    """values that compare equal in Python but are different values (0.0 / -0.0, 1 / 1.0 / True) bound by different connections in
+    every order: the statement the application receives for an execution carries the literal of the value THAT connection sent
+    -- an absolute oracle (a memo of rendered parameters keyed by == would hand one connection another one's rendering)"""
+    from lib import RawSession, T_DOUBLE, T_LONGLONG, T_TINY
+    vals = [(T_DOUBLE, 0.0, "0.0"), (T_DOUBLE, -0.0, "-0.0"), (T_LONGLONG, 1, "1"), (T_DOUBLE, 1.0, "1.0"), (T_LONGLONG, 0, "0"), (T_TINY, 1, "1")]
+    import itertools
+    for order in list(itertools.permutations(range(4), 2)) + [(1, 0), (3, 2), (4, 0), (0, 4)]:
+        sa, sb = RawSession(), RawSession()
+        srv = mkserver([sa, sb])
+        a, b = Peer(srv), Peer(srv)
+        await a.login(caps=int(BASE) & ~(1 << 27))
+        await b.login(caps=int(BASE) & ~(1 << 27))
+        ids = []
+        for p_ in (a, b):
+            o = await p_.cmd(b"\x16SELECT ?")
+            ids.append(struct.unpack_from("<I", o[0][1], 1)[0])
+        plan = [(a, sa, ids[0], order[0]), (b, sb, ids[1], order[1]), (a, sa, ids[0], order[1]), (b, sb, ids[1], order[0])]
+        for who, (peer, sess, sid, vi) in enumerate(plan):
+            t, v, lit = vals[vi]
+            before = len(sess.log)
+            await peer.cmd(com_stmt_execute(sid, [(t, False, v, b"")], caps=int(BASE) & ~(1 << 27)), n=30)
+            got = [l[1] for l in sess.log[before:] if l[0] == "hq"]
+            chk.count("bind equal-but-different values")
+            if got != ["SELECT " + lit]:
+                chk.fail("the literal bound for a parameter is not the one of the value this connection sent (values that compare equal, bound by different connections)",
+                         dict(connection="AB"[who % 2], bound=repr(v), executions_so_far=[repr(vals[x[3]][1]) for x in plan[:who]]),
+                         dict(received=got[:1], expected="SELECT " + lit))
+        chk.case(("equal-values", order))
+        await a.finish()
+        await b.finish()
+
+
 async def case(chk, rng, idx):
     K = rng.choice([2, 2, 3, 4])
     progs = [gen_program(rng, i + 1) for i in range(K)]
@@ -489,6 +522,7 @@ def main():
     ncases = 1500 if chk.thorough else 45
 
     async def go():
+        await equal_but_different_values(chk)
         L, I, D = [], [], []
         for idx in range(ncases):
             lines, impl, descs = await case(chk, rng, idx)
